@@ -78,6 +78,26 @@ class DefUse:
                 if isinstance(inner, ast.Name):
                     self.deps.setdefault(inner.id, set()).update(srcs)
 
+    def must_cover(self, names):
+        """Parameters whose content is certainly an ingredient of a token built from `names` (an UNDER-approximation, as
+        coverage must be): a parameter named directly, or a local all of whose definitions mention only covered names.
+        A name that is both a parameter and re-assigned (array, by = _unify_chunks(array, by)) covers itself only: the
+        re-assigned value keeps that parameter's content but need not carry the others it was computed with."""
+        out = {n for n in names if n in self.params}
+        work = [n for n in names if n not in self.params]
+        seen = set()
+        while work:
+            n = work.pop()
+            if n in seen:
+                continue
+            seen.add(n)
+            for s_ in self.deps.get(n, ()):
+                if s_ in self.params:
+                    out.add(s_)
+                elif s_ not in seen:
+                    work.append(s_)
+        return out
+
     def param_closure(self, names):
         seen, out = set(), set()
         stack = list(names)
@@ -174,7 +194,7 @@ def analyse(repo, contracts):
                 if k.arg != "name":
                     payload |= names_in(k.value)
             need = du.param_closure(payload)
-            have = du.param_closure(covering) | set(c.get("irrelevant", {}))
+            have = du.must_cover(covering) | set(c.get("irrelevant", {}))
             missing = sorted(need - have)
             out.append(dict(name=f"T3.{site}", ok=not missing, function=c["func"], text=f"line {node.lineno}: every parameter the payload of layer `{text}` depends on is covered by its token ({sorted(covering)}) or listed as value-irrelevant",
                             detail="" if not missing else f"payload depends on parameter(s) {missing} that the token does not cover", model=None if not missing else {"function": c["func"], "line": node.lineno, "uncovered": missing}))
@@ -209,7 +229,7 @@ def analyse(repo, contracts):
                 out.append(dict(name=f"T2.{site}", ok=ok2, function=c["func"], text=f"line {node.lineno}: hand-built layer keyed by `{nm}` has a content-derived name", detail="" if ok2 else "name carries no token", model=None if ok2 else {"function": c["func"], "line": node.lineno}))
                 payload = names_in(node.value) - {nm}
                 need = du.param_closure(payload)
-                have = du.param_closure(covering | dep_cover) | set(c.get("irrelevant", {}))
+                have = du.must_cover(covering | dep_cover) | set(c.get("irrelevant", {}))
                 missing = sorted(need - have)
                 out.append(dict(name=f"T3.{site}", ok=not missing, function=c["func"], text=f"line {node.lineno}: payload of the hand-built layer `{nm}` depends only on what its name covers ({sorted(covering | dep_cover)})",
                                 detail="" if not missing else f"payload depends on parameter(s) {missing} not covered by the name", model=None if not missing else {"function": c["func"], "line": node.lineno, "uncovered": missing}))
